@@ -7,11 +7,51 @@
     (transformed by the context) as the next diagnostic before resuming or failing with the
     recovery error; (iii) a successful bounded list sends the count error only when it holds fewer
     than [lo] entries (C11).
-    Partial: the composition over whole grammars with recovering combinators in committed
-    positions (a sink-less success implies the sink-enabled run is identical) is decided by the
-    correspondence run, which executes every case with Context::empty and Context::new(sink), and
-    the python oracle; it is not proved. *)
-From Tephra Require Import MetricsSpec CLexer LexerFacts Run Peg RunCore RunRecover.
+    (iv) WHOLE GRAMMARS ([comm g]: recovering combinators - recover*, bracket*, list* - anywhere
+    except inside the left branch of an ordered choice, a repetition body, separator or stop
+    parser; optional parsers may contain anything): if the parse succeeds without a sink, the
+    parse with a sink returns the same value and the same lexer, and the store (what the sink has
+    received) is what it was - for ARBITRARY lexers without recover state, any fuel, any text.
+    Its ingredients: without a sink no grammar sends anything, recovers, or leaves a recover
+    state ([no_sink_good]); sink-free grammars do not depend on the sink ([rfree_indep]).
+    Not proved (correspondence + oracle, every case run with Context::empty and Context::new(sink)):
+    the converse (a silent sink-enabled success equals the sink-less result) and the error half
+    (a sink-less failure is the sink-enabled failure or its first diagnostic) beyond (ii). *)
+From Tephra Require Import MetricsSpec CLexer LexerFacts Run Peg RunCore RunRecover RunSink.
+
+Theorem C08_sinkless_success_reproduced :
+  forall fuel g lx c0 c1 st v lx' st',
+  comm g = true -> crel c0 c1 -> has_sink c0 = false -> c_rec lx = None ->
+  run fuel g lx c0 st = (ROk v lx', st') ->
+  run fuel g lx c1 st = (ROk v lx', st) /\ st' = st.
+Proof. exact sinkless_success_reproduced. Qed.
+Print Assumptions C08_sinkless_success_reproduced.
+
+Theorem C08_without_sink_nothing_is_sent :
+  forall fuel g, noprobe g = true -> forall lx c st, has_sink c = false -> c_rec lx = None ->
+  match run fuel g lx c st with
+  | (ROk _ lx', st') => c_rec lx' = None /\ st' = st
+  | (RErr e, st') => e <> ERecover /\ st' = st
+  | (_, st') => st' = st
+  end.
+Proof. exact no_sink_good. Qed.
+Print Assumptions C08_without_sink_nothing_is_sent.
+
+Theorem C08_sink_free_grammars_ignore_the_sink :
+  forall fuel g, rfree g = true -> forall lx c c' st, crel c c' ->
+  run fuel g lx c st = run fuel g lx c' st.
+Proof. exact rfree_indep. Qed.
+Print Assumptions C08_sink_free_grammars_ignore_the_sink.
+
+(** [comm] is satisfiable by grammars that do recover: a list of recovering items inside brackets
+    after an optional prefix *)
+Example C08_comm_example :
+  comm (GRight (GMaybe (GRecoverDef (1, RBefore [KSemi]) (GOne KA)))
+               (GBracketDef [KLP] (GListDef (GRecoverDef (2, RBefore [KComma]) (GOne KB)) KComma [KRP]) [KRP] [])) = true
+  /\ comm (GEither (GRecoverDef (1, RBefore [KSemi]) (GOne KA)) (GOne KB)) = false.
+Proof. vm_compute. split; reflexivity. Qed.
+Print Assumptions C08_comm_example.
+
 
 Theorem C08_core_context_irrelevant :
   forall m, 1 <= tabw m -> forall t, wf_text t ->
